@@ -100,6 +100,9 @@ pub struct Params {
 pub struct GenCtx {
     pub tier: Tier,
     pub corpus: Arc<crate::corpus::Corpus>,
+    pub seed: i64,
+    /// Failure signatures of `known` findings of this property (for exclusion by construction).
+    pub known_sigs: HashSet<String>,
 }
 
 /// Context available to `run` (worker side).
@@ -119,9 +122,13 @@ pub trait Property: Sync + Send {
     fn params(&self, tier: Tier) -> Params;
     /// Decode a choice sequence into a case (a JSON value that `run` understands).
     fn generate(&self, c: &mut Choices<'_>, g: &GenCtx) -> Value;
-    /// Fixed enumerations run before the generated tier (exhaustive sub-spaces, sweeps).
-    fn enumerate(&self, _g: &GenCtx) -> Vec<Value> {
-        vec![]
+    /// Fixed enumerations run before the generated tier (exhaustive sub-spaces, grid sweeps):
+    /// number of cases, and case `i` (`None` = excluded by construction, counted).
+    fn enum_len(&self, _g: &GenCtx) -> usize {
+        0
+    }
+    fn enum_case(&self, _g: &GenCtx, _i: usize) -> Option<Value> {
+        None
     }
     /// Whether the enumeration covers a finite space completely.
     fn enumeration_exhaustive(&self) -> bool {
@@ -485,6 +492,34 @@ fn classify(
     }
 }
 
+/// Delta-debugging on the option list of a failing case: drop options (and move max_width
+/// to the default) while the same failure signature persists.
+fn reduce_opts(w: &mut Worker, case: Value, outcome: Outcome, timeout: Duration) -> (Value, Outcome) {
+    let mut best = case;
+    let mut best_o = outcome;
+    let Some(n) = best["opts"].as_array().map(|a| a.len()) else {
+        return (best, best_o);
+    };
+    let mut i = n;
+    while i > 0 {
+        i -= 1;
+        let mut cand = best.clone();
+        if let Some(a) = cand["opts"].as_array_mut() {
+            if i >= a.len() {
+                continue;
+            }
+            a.remove(i);
+        }
+        if let WorkerReply::Outcome(o) = w.run(&cand, false, timeout) {
+            if o.status == Status::Fail && o.sig == best_o.sig {
+                best = cand;
+                best_o = o;
+            }
+        }
+    }
+    (best, best_o)
+}
+
 pub fn run_check(prop: Arc<dyn Property>, tier: Tier) -> i32 {
     let t0 = Instant::now();
     let root = verif_root();
@@ -508,6 +543,12 @@ pub fn run_check(prop: Arc<dyn Property>, tier: Tier) -> i32 {
     let gctx = Arc::new(GenCtx {
         tier,
         corpus: corpus.clone(),
+        seed,
+        known_sigs: known
+            .iter()
+            .filter(|k| k.status == "known")
+            .flat_map(|k| k.sigs.iter().cloned())
+            .collect(),
     });
     let params = prop.params(tier);
     let mut total = Stats::default();
@@ -589,8 +630,7 @@ pub fn run_check(prop: Arc<dyn Property>, tier: Tier) -> i32 {
     }
 
     // ---- enumerated tier ---------------------------------------------------------------------
-    let enumerated = Arc::new(prop.enumerate(&gctx));
-    let n_enum = enumerated.len();
+    let n_enum = prop.enum_len(&gctx);
     let stop = Arc::new(AtomicBool::new(false));
     if n_enum > 0 && violations.is_empty() {
         let next = Arc::new(AtomicUsize::new(0));
@@ -599,7 +639,7 @@ pub fn run_check(prop: Arc<dyn Property>, tier: Tier) -> i32 {
         for _ in 0..jobs.min(n_enum) {
             let prop = prop.clone();
             let known = known.clone();
-            let enumerated = enumerated.clone();
+            let gctx = gctx.clone();
             let next = next.clone();
             let results = results.clone();
             let stop = stop.clone();
@@ -613,14 +653,21 @@ pub fn run_check(prop: Arc<dyn Property>, tier: Tier) -> i32 {
                         break;
                     }
                     let i = next.fetch_add(1, Ordering::Relaxed);
-                    if i >= enumerated.len() {
+                    if i >= n_enum {
                         break;
                     }
-                    let case = &enumerated[i];
-                    let reply = w.run(case, false, timeout);
-                    if let Some(o) = classify(reply, case, &*prop, &known, &mut stats, true) {
+                    let case = match prop.enum_case(&gctx, i) {
+                        Some(c) => c,
+                        None => {
+                            *stats.excluded.entry("enumeration:known-finding-class".into()).or_default() += 1;
+                            continue;
+                        }
+                    };
+                    let reply = w.run(&case, false, timeout);
+                    if let Some(o) = classify(reply, &case, &*prop, &known, &mut stats, true) {
+                        let (case, o) = reduce_opts(&mut w, case, o, timeout);
                         viols.push(Violation {
-                            case: case.clone(),
+                            case,
                             outcome: o,
                             origin: format!("enumeration index {i}"),
                         });
